@@ -111,7 +111,7 @@ structure BInv (s : State) : Prop where
   cl_nb : s.b.client.newBlocks = []
   ids_nodup : (s.b.server.tasks.map (·.id)).Nodup
   ids_lt : ∀ t ∈ s.b.server.tasks, t.id < s.b.server.nextTask
-  sched : ∀ t ∈ s.b.server.tasks, t.id ∈ s.b.server.runq ∨
+  sched : ∀ t ∈ s.b.server.tasks, (t.id ∈ s.b.server.runq ∧ ∀ n, t.st ≠ .waiting n) ∨
     ∃ n k rest, t.st = .waiting n ∧ t.todo = k :: rest ∧ (n, k) ∈ s.callsB
   ready_ok : ∀ t ∈ s.b.server.tasks, ∀ r, t.st = .ready r →
     ∃ k rest, t.todo = k :: rest ∧ r = lookupRes s.storeB k
@@ -147,7 +147,8 @@ structure AInv (g : GS) : Prop where
   answered_ok : ∀ qd ∈ g.s.answered, ∃ k : Nat, g.s.storeB[k]? = some qd.2
   ids_nodup : (g.s.a.client.tasks.map (·.id)).Nodup
   ids_lt : ∀ t ∈ g.s.a.client.tasks, t.id < g.s.a.client.nextTask
-  sched : ∀ t ∈ g.s.a.client.tasks, t.id ∈ g.s.a.client.runq ∨
+  sched : ∀ t ∈ g.s.a.client.tasks,
+    (t.id ∈ g.s.a.client.runq ∧ (t.aborted = true ∨ ∀ n, t.st ≠ .waiting n)) ∨
     ∃ n, t.st = .waiting n ∧ (n ∈ g.s.callsA.map (·.1) ∨ n ∈ g.s.putsA)
   wait_lt : ∀ t ∈ g.s.a.client.tasks, ∀ n, t.st = .waiting n → n < g.s.a.seq
   wait_inj : ∀ t ∈ g.s.a.client.tasks, ∀ t' ∈ g.s.a.client.tasks, ∀ n,
